@@ -124,6 +124,14 @@ func c05Configs(thorough bool) []modelCfg {
 	return out
 }
 
+// thoroughExtra: one more deviation in the thorough tier (for scenarios small enough to afford it).
+func thoroughExtra(c *hx.Ctx) int {
+	if c.Thorough() {
+		return 1
+	}
+	return 0
+}
+
 func envBound(def int) int {
 	if b := os.Getenv("HX_BOUND"); b != "" {
 		n, _ := strconv.Atoi(b)
@@ -187,14 +195,13 @@ func exploreShared(c *hx.Ctx, prop string, i int, sc func() *hx.Scenario, ec hx.
 // delayBound: scenarios with many short-lived threads (pool requests, put goroutines, conc blocks)
 // are explored with delay bounding: 2 deviations quick, 3 thorough; configurations marked 0 keep 0.
 func delayBound(c *hx.Ctx, b int) int {
+	// 0 = no exploration; 1 or 2 = "explore" = two deviations in both tiers; a configuration that wants
+	// a third deviation (thorough tier, selected configurations only - see DESIGN A.5) says 3 itself
 	if b == 0 {
 		return 0
 	}
 	if b >= 3 {
-		return b // a configuration that asks for a deeper bound explicitly
-	}
-	if c.Thorough() {
-		return 3
+		return b
 	}
 	return 2
 }
